@@ -85,6 +85,9 @@ def git_url_to_bzr_url(location, branch=None, ref=None):
     elif url.scheme in SCHEME_REPLACEMENT:
         url.scheme = SCHEME_REPLACEMENT[url.scheme]
         location = str(url)
+    # A comma in a git URL is part of the path; in a bzr URL it starts the
+    # segment parameters, so it has to be quoted.
+    location = location.replace(",", "%2C")
     if ref == b"HEAD":
         ref = branch = None
     if ref:
